@@ -42,3 +42,42 @@ class MassDahlquist(Problem):
         me = self.dtype_u(self.init)
         me[:] = np.cos(np.arange(self.n) + 1.0)
         return me
+
+
+class TwoPartDahlquist(Problem):
+    """u' = A1 u + A2 u + b(t) with two implicit parts (for pySDC's real `multi_implicit` sweeper); harness-owned stub problem."""
+
+    from pySDC.implementations.datatype_classes.mesh import comp2_mesh as _comp2
+
+    dtype_u = mesh
+    dtype_f = _comp2
+
+    def __init__(self, n=3, seed=0, stiffness=1.0, forcing=0.0):
+        super().__init__(init=(n, None, np.dtype('float64')))
+        self._makeAttributeAndRegister('n', 'seed', 'stiffness', 'forcing', localVars=locals(), readOnly=True)
+        rng = np.random.RandomState(seed)
+        C1, C2 = rng.uniform(-1, 1, size=(n, n)), rng.uniform(-1, 1, size=(n, n))
+        self.A1 = -stiffness * (np.eye(n) * (1.0 + rng.uniform(0, 2, size=n)) + 0.2 * (C1 @ C1.T) / n)
+        self.A2 = -0.5 * stiffness * (np.eye(n) * rng.uniform(0.2, 1, size=n) + 0.2 * (C2 @ C2.T) / n)
+        self.bvec = forcing * rng.uniform(-1, 1, size=n)
+
+    def eval_f(self, u, t):
+        f = self.dtype_f(self.init)
+        f.comp1[:] = self.A1 @ np.asarray(u) + self.bvec * np.cos(t)
+        f.comp2[:] = self.A2 @ np.asarray(u)
+        return f
+
+    def solve_system_1(self, rhs, factor, u0, t):
+        me = self.dtype_u(self.init)
+        me[:] = np.linalg.solve(np.eye(self.n) - factor * self.A1, np.asarray(rhs) + factor * self.bvec * np.cos(t))
+        return me
+
+    def solve_system_2(self, rhs, factor, u0, t):
+        me = self.dtype_u(self.init)
+        me[:] = np.linalg.solve(np.eye(self.n) - factor * self.A2, np.asarray(rhs))
+        return me
+
+    def u_exact(self, t, **kwargs):
+        me = self.dtype_u(self.init)
+        me[:] = np.sin(np.arange(self.n) + 1.0) + 1.0
+        return me
